@@ -229,9 +229,51 @@ def run_roundtrip(chk, case):
                      msg="max err %.3g, kappa %.3g" % (N.err(r, d), kappa))
         if nblk == 1 and scheme != "Alamouti":
             check_pair(chk, case, obj, scheme, H, kappa, layers)
+        if nblk == 1:
+            check_aliasing(chk, case, scheme, form, H, d, r, kappa)
         chk.outcome("uses", (scheme, x.shape[1]))
         if nr * nt > 1:
             chk.nontriv((scheme, form, case["fam"], case["member"], nr, nt, nblk))
+
+
+def check_aliasing(chk, case, scheme, form, H, d, r_ref, kappa):
+    """the scheme must not modify its channel, data or received samples, must accept read-only and
+    Fortran-ordered arguments, and decoding twice must give the same"""
+    for how in ("F", "C_readonly", "Tview_readonly"):
+        chk.count("eval_aliasing")
+        if how == "F":
+            Hh = np.array(H, order="F", copy=True)
+        elif how == "C_readonly":
+            Hh = np.array(H, order="C", copy=True)
+        else:
+            Hh = np.array(H.T, order="C", copy=True).T
+        if how != "F":
+            Hh.setflags(write=False)
+        dd = d.copy()
+        dd.setflags(write=False)
+        cs = dict(case, layout=how)
+        try:
+            obj = make_scheme(scheme, form, Hh) if form == "2d" else make_scheme(scheme, form, np.array(Hh))
+            if form == "2d":
+                # make_scheme copies; hand the very array over so that aliasing is really exercised
+                obj.set_channel_matrix(Hh)
+            x = np.asarray(obj.encode(dd))
+            y = np.array(H @ x, order="F" if how == "F" else "C")
+            if how != "F":
+                y.setflags(write=False)
+            y0 = y.copy()
+            r1 = np.array(obj.decode(y), copy=True)
+            r2 = np.array(obj.decode(y), copy=True)
+        except Exception as e:  # noqa
+            chk.fail((scheme, "aliasing", "raises", how, type(e).__name__), cs,
+                     observed="%s: %s" % (type(e).__name__, e), expected="same result as for a C-ordered writeable copy")
+            continue
+        if not (np.array_equal(Hh, H) and np.array_equal(dd, d) and np.array_equal(y, y0)):
+            chk.fail((scheme, "aliasing", "mutates_argument", how), cs)
+        if not np.array_equal(r1, r2, equal_nan=True):
+            chk.fail((scheme, "aliasing", "second_decode_differs", how), cs, observed=r2[:6], expected=r1[:6])
+        if not N.close(r1, r_ref, kappa, C_RT):
+            chk.fail((scheme, "aliasing", "layout_changes_result", how), cs, observed=N.err(r1, r_ref), expected=0)
 
 
 def check_pair(chk, case, obj, scheme, H, kappa, layers):
